@@ -428,7 +428,7 @@ fn gen_node(t: &mut Tape, cx: &mut Ctx, name_idx: usize, depth: usize, budget: &
             }
         }
         _ => {
-            let maxc = if cx.wide { 24 } else { 6 };
+            let maxc = if cx.wide { (cx.elems.len() + 8).max(24) } else { 6 };
             let n = 1 + t.choose(maxc);
             let mixed_ok = !cx.dom.data_oriented && !cx.dom.split_leaf_struct;
             for _ in 0..n {
@@ -601,7 +601,8 @@ fn amplify(t: &mut Tape, doc: &mut Node, adjacent: bool) -> bool {
 pub fn decode_case(t: &mut Tape, dom: &Domain) -> Case {
     let wide = dom.allow_wide && t.chance(32);
     let (np, na) = if wide {
-        (8 + t.choose(9), 4 + t.choose(9))
+        // up to 16 names mostly; one wide case in four has up to 48 (sort implementations switch algorithm above 20)
+        (if t.chance(64) { 17 + t.choose(32) } else { 8 + t.choose(9) }, 4 + t.choose(9))
     } else {
         (dom.min_pool + t.choose(dom.max_pool - dom.min_pool + 1), t.choose(5) + if t.chance(200) { 1 } else { 0 })
     };
@@ -625,7 +626,7 @@ pub fn decode_case(t: &mut Tape, dom: &Domain) -> Case {
         if dom.chain_chance > 0 && t.chance(dom.chain_chance) {
             docs.push(gen_chain(t, &mut cx, root_idx));
         } else {
-            let mut budget = if wide { 60 } else if long_seq { 8 } else { dom.max_nodes };
+            let mut budget = if wide { 60.max(cx.elems.len() * 2) } else if long_seq { 8 } else { dom.max_nodes };
             let saved;
             let d = if wide {
                 saved = Domain { max_depth: 3, ..dom.clone() };
